@@ -365,7 +365,9 @@ def check_property(prop, tier, seed):
         seeds = [None] if tier == "quick" else [None, seed * 3 + 1, seed * 3 + 2]
         unstable = []
         for unit in units:
-            ur = run_unit(unit, workdir, seed=None, do_canary=True)
+            # (PGVERIF_NO_CANARY=1 is for the seeded-change sweeps only - tools/run_seeded*.sh -, where the question is whether a CHANGED
+            # tree fails an obligation; the registered quick / thorough commands never set it)
+            ur = run_unit(unit, workdir, seed=None, do_canary=not os.environ.get("PGVERIF_NO_CANARY"))
             results.append(ur)
             log("unit %-10s items=%d tokens_audited=%d verified=%d errors=%d smt=%.1fs wall=%.1fs canary: %d/%d failed as expected%s" % (
                 unit, len(ur.asm["items"]), ur.asm["stats"].get("tokens_audited", 0), ur.verified, ur.errors, ur.smt_ms / 1000.0, ur.total_wall,
